@@ -8,6 +8,7 @@ import z3
 
 from vlib import loader, symex
 from vlib.symex import Ctx, decide, explore, check_sat, Inconclusive
+from checks import objarr
 from checks.objarr import Sym, sym, NPProxy, differs, rq, USQRT
 
 PID = 'C16'
@@ -63,6 +64,20 @@ def close_flag(a, b):
     bl = z3.Bool('isclose!%s!%s' % (ta.sexpr(), tb.sexpr()))
     FLAGDEFS[bl.get_id()] = (bl, _abs(ta - tb) <= rq(1e-8) + rq(1e-5) * _abs(tb))
     return decide(bl)
+
+
+def cmp_flag(t):
+    """a comparison between value terms (varss <= 0, ...) as a path decision keyed by the term, like the isclose flags:
+    both outcomes are explored without an arithmetic feasibility query; stage 2 gives the flag its meaning"""
+    t = z3.simplify(t)
+    if z3.is_true(t) or z3.is_false(t):
+        return z3.is_true(t)
+    b = z3.Bool('cmp!%s' % t.sexpr())
+    FLAGDEFS[b.get_id()] = (b, t)
+    return decide(b)
+
+
+objarr.BOOL_DECIDE[0] = cmp_flag
 
 
 class NPP(NPProxy):
